@@ -12,6 +12,8 @@ Extra == [cyc_120 |-> [factor |-> 1, conj |-> FALSE, axes |-> <<1, 2, 0>>],
           conj |-> [factor |-> 1, conj |-> TRUE, axes |-> <<>>],
           conj_trans |-> [factor |-> -1, conj |-> TRUE, axes |-> <<1, 0>>],
           \* realised by the harness through Transform(swap_axes=...): the same permutations given the other way
+          \* equal in value to transform_odd but another object (a product must multiply the factors' values)
+          odd_copy |-> [factor |-> -1, conj |-> FALSE, axes |-> <<>>],
           swap_12 |-> [factor |-> 1, conj |-> FALSE, axes |-> <<1, 0>>],
           swap_13c |-> [factor |-> -1, conj |-> TRUE, axes |-> <<2, 1, 0>>]]
 All == [n \in (DOMAIN Predefined) \cup (DOMAIN Extra) |-> IF n \in DOMAIN Predefined THEN Predefined[n] ELSE Extra[n]]
